@@ -835,8 +835,21 @@ func (f *Frame) argType(siteKey string, i int) types.Type {
 func (e *Enc) loopWriteSet(f *Frame, li *LoopInfo) []string {
 	set := map[string]bool{}
 	all := false
+	e.mapPoints = map[string][]ssa.Value{}
+	e.pointLoop, e.pointFrame = li, f
 	for idx := range li.blocks {
 		e.blockWrites(f.fn.Blocks[idx], f.depth, set, &all, f.top)
+	}
+	e.pointLoop, e.pointFrame = nil, nil
+	// map variables written only through loop-invariant map operands are havoced at those maps only
+	li.mapPoints = map[string][]ssa.Value{}
+	if !all {
+		for v, refs := range e.mapPoints {
+			if !set[v] {
+				li.mapPoints[v] = refs
+				set[v] = true
+			}
+		}
 	}
 	if all {
 		for _, v := range e.allHeapVars {
@@ -889,6 +902,12 @@ func (e *Enc) blockWrites(b *ssa.BasicBlock, depth int, set map[string]bool, all
 			e.addrWrites(x.Addr, set, all)
 		case *ssa.MapUpdate:
 			mt := x.Map.Type().Underlying().(*types.Map)
+			if e.pointLoop != nil && b.Parent() == e.pointFrame.fn && (e.pointFrame.loopInvariantValue(x.Map, e.pointLoop) || loadOfUnwrittenGlobal(x.Map, e.pointLoop, e.pointFrame.fn)) {
+				for _, v := range []string{e.S.mapVar(mt), e.S.mapDomVar(mt), e.S.mapLenVar()} {
+					e.mapPoints[v] = append(e.mapPoints[v], x.Map)
+				}
+				continue
+			}
 			set[e.S.mapVar(mt)] = true
 			set[e.S.mapDomVar(mt)] = true
 			set[e.S.mapLenVar()] = true
@@ -1150,4 +1169,33 @@ func (f *Frame) panicExitCheck(siteKey string, pos token.Pos) {
 	}
 	f.heap = saved
 	f.inPanicSim = false
+}
+
+// loadOfUnwrittenGlobal: v is *G for a package-level variable G that no
+// instruction of the loop stores to (so the loaded reference is the same in
+// every iteration).
+func loadOfUnwrittenGlobal(v ssa.Value, li *LoopInfo, fn *ssa.Function) bool {
+	u, ok := v.(*ssa.UnOp)
+	if !ok || u.Op != token.MUL {
+		return false
+	}
+	g, ok := u.X.(*ssa.Global)
+	if !ok {
+		return false
+	}
+	for idx := range li.blocks {
+		for _, ins := range fn.Blocks[idx].Instrs {
+			switch x := ins.(type) {
+			case *ssa.Store:
+				if x.Addr == ssa.Value(g) {
+					return false
+				}
+			case *ssa.Call:
+				if _, isB := x.Call.Value.(*ssa.Builtin); !isB {
+					return false // a callee might assign the variable
+				}
+			}
+		}
+	}
+	return true
 }
